@@ -128,6 +128,14 @@ CHECKS = {
              "profile texts through yaml.v3 node manipulation - a purpose-built profile plus the repository's fixtures with their "
              "own data - and conforms and the (severity, validation, focus, message) set are compared with the base.",
         ref="DESIGN.md §6 C15", technique="TLA+ rewrite model (TLC) + simulated rewrite walks replayed on real profiles"),
+    "C13": dict(
+        text="spec/Text.tla transcribes the chain a profile text goes through (message parsing -> pasting into a Rego string "
+             "literal -> Rego unescaping -> sprintf) over an alphabet of 12 character classes + 2 placeholders, next to what the "
+             "property prescribes; TLC proves chain = expectation for every string of length <=3 (quick) / <=4 (thorough) and "
+             "every subset of placeholder properties present, and refutes it for the escaping of the pinned tree; every string is "
+             "concretised and placed as message, profile name, validation name and value of in/containsAll/containsSome; "
+             "profileName, sourceShapeName, resultMessage and the verdict are compared.",
+        ref="DESIGN.md §6 C13", technique="TLA+ transcription of the escaping chain + exhaustive string enumeration (TLC) replayed into the validator"),
 }
 
 NOT_YET = "no check registered yet for this property in the current state of the framework (design in DESIGN.md §6)"
